@@ -268,6 +268,17 @@ func genC11(g *gen) {
 		compositeField(wl, "&protocol.RouteWithdraw", "OriginAgent") == "f.localID" && compositeField(wl, "&protocol.RouteWithdraw", "Sequence") == "seq" &&
 		compositeField(wl, "&protocol.RouteWithdraw", "SeenBy") == "[]identity.AgentID{f.localID}"
 	g.line("Definition gen_withdraw_origin_fresh_sequence_own_id : bool := %s.", coqBool(wlOK))
+	// the sequence counter: incremented and read back inside one lock region (two concurrent callers never get one number)
+	inc := findFuncInDir("internal/routing", "Manager", "IncrementSequence")
+	incOK := false
+	if inc != nil && inc.Body != nil && len(inc.Body.List) == 4 {
+		incOK = isStmtText(inc.Body.List[0], "m.mu.Lock()") && isStmtText(inc.Body.List[1], "defer m.mu.Unlock()") &&
+			isStmtText(inc.Body.List[2], "m.sequence++") && isStmtText(inc.Body.List[3], "return m.sequence")
+	}
+	g.line("Definition gen_increment_sequence_reads_back_under_the_lock : bool := %s.", coqBool(incOK))
+	// the agent hands a ROUTE_WITHDRAW to the flooder as (receiving peer, origin, sequence, routes, seen-by)
+	fa11 := parseFile(agentGo)
+	g.line("Definition gen_handle_route_withdraw_args : list string := %s.", coqStrListFlood(callArgs(findFunc(fa11, "Agent", "handleRouteWithdraw"), "a.flooder.HandleRouteWithdraw")))
 	// the seen-by list handed to the flood is the received one plus the local id
 	appendSelf := hasNode(h, func(n ast.Node) bool { return isStmtText(n, "newSeenBy := append(seenBy, f.localID)") })
 	fargs := callArgs(h, "f.floodAdvertisementEncrypted")
@@ -396,6 +407,34 @@ func genC12(g *gen) {
 	pm := findFuncInDir("internal/routing", "Manager", "ProcessRouteAdvertise")
 	nh := compositeField(pm, "&Route", "NextHop") == "fromPeer" && compositeField(pm, "&Route", "Path") == "path" && compositeField(pm, "&Route", "OriginAgent") == "originAgent"
 	g.line("Definition gen_store_next_hop_is_sender_path_as_received : bool := %s.", coqBool(nh))
+	g.line("Definition gen_forward_path_extension_unconditional : bool := %s.", coqBool(floodPathExtensionUnconditional(ff)))
+	g.line("Definition gen_display_name_cut_to_255_bytes : bool := %s.", coqBool(floodDisplayNameCutInBytes(ff)))
+	// ipNetToProtocolRoute: family and prefix length both come from the mask (bits == 128 -> IPv6), the prefix is network.IP as held
+	ip := findFunc(ff, "", "ipNetToProtocolRoute")
+	ipOK := hasNode(ip, func(n ast.Node) bool { return isStmtText(n, "ones, bits := network.Mask.Size()") }) &&
+		hasNode(ip, func(n ast.Node) bool {
+			is, ok := n.(*ast.IfStmt)
+			return ok && norm(src(is.Cond)) == "bits == 128" && len(is.Body.List) == 1 && isStmtText(is.Body.List[0], "family = protocol.AddrFamilyIPv6")
+		}) && compositeField(ip, "protocol.Route", "PrefixLength") == "uint8(ones)" && compositeField(ip, "protocol.Route", "Prefix") == "[]byte(network.IP)" &&
+		compositeField(ip, "protocol.Route", "AddressFamily") == "family"
+	g.line("Definition gen_ipnet_family_and_length_from_mask : bool := %s.", coqBool(ipOK))
+	// routeAdvertiseLoop: period from routing.advertise_interval (default 2 min), stale-route TTL from routing.route_ttl
+	// (default 5 periods), cleanup of all four tables then AnnounceLocalRoutes on every tick
+	ral := findFunc(fa, "Agent", "routeAdvertiseLoop")
+	ralOK := hasNode(ral, func(n ast.Node) bool { return isStmtText(n, "interval := a.cfg.Routing.AdvertiseInterval") }) &&
+		hasNode(ral, func(n ast.Node) bool { return isStmtText(n, "ticker := time.NewTicker(interval)") }) &&
+		hasNode(ral, func(n ast.Node) bool { return isStmtText(n, "routeTTL := a.cfg.Routing.RouteTTL") }) &&
+		hasNode(ral, func(n ast.Node) bool { return isStmtText(n, "routeTTL = interval * 5") })
+	reassigned := 0
+	if ral != nil {
+		ast.Inspect(ral.Body, func(n ast.Node) bool {
+			if a, ok := n.(*ast.AssignStmt); ok && len(a.Lhs) == 1 && norm(src(a.Lhs[0])) == "interval" {
+				reassigned++
+			}
+			return true
+		})
+	}
+	g.line("Definition gen_route_advertise_loop_period_is_advertise_interval : bool := %s.", coqBool(ralOK && reassigned == 2))
 	// connect / disconnect wiring
 	pc := findFunc(fa, "Agent", "handlePeerConnected")
 	sft := callArgs(pc, "a.flooder.SendFullTable")
@@ -557,6 +596,21 @@ func genC13(g *gen) {
 	rtp := findFunc(ff, "", "routeToProtocol")
 	rtpOK := hasNode(rtp, func(n ast.Node) bool { return isExprText(n, "ipNetToProtocolRoute(route.Network, route.Metric)") })
 	g.line("Definition gen_replay_sends_stored_metric : bool := %s.", coqBool(stored == 3 && rtpOK))
+	g.line("Definition gen_forward_path_extension_unconditional_c13 : bool := %s.", coqBool(floodPathExtensionUnconditional(ff)))
+	// Table.RemoveRoute keeps the remaining entries of a prefix in their (metric) order
+	rr := findFuncInDir("internal/routing", "Table", "RemoveRoute")
+	rrOK := hasNode(rr, func(n ast.Node) bool { return isStmtText(n, "t.routes[key] = append(routes[:i], routes[i+1:]...)") })
+	ar := findFuncInDir("internal/routing", "Table", "AddRoute")
+	sorts := 0
+	if ar != nil {
+		ast.Inspect(ar.Body, func(n ast.Node) bool {
+			if c, ok := n.(*ast.CallExpr); ok && norm(src(c.Fun)) == "t.sortRoutes" {
+				sorts++
+			}
+			return true
+		})
+	}
+	g.line("Definition gen_table_keeps_entries_sorted_by_metric : bool := %s.", coqBool(rrOK && sorts == 2))
 	if incr < 0 {
 		g.note("re-flood metric increment pattern not recognised")
 	}
@@ -687,6 +741,7 @@ func genC14(g *gen) {
 		}
 	}
 	g.line("Definition gen_max_routes_per_advertisement : N := %d%%N.", nz(maxRoutes))
+	g.line("Definition gen_display_name_cut_to_255_bytes_c14 : bool := %s.", coqBool(floodDisplayNameCutInBytes(ff)))
 	inc := findFuncInDir("internal/routing", "Manager", "IncrementSequence")
 	incOK := hasNode(inc, func(x ast.Node) bool { return isStmtText(x, "m.sequence++") }) &&
 		hasNode(inc, func(x ast.Node) bool { return isStmtText(x, "return m.sequence") })
@@ -943,4 +998,48 @@ func floodSeenOneLockRegion(h *ast.FuncDecl) bool {
 		}
 	}
 	return state == 4
+}
+
+// floodDisplayNameCutInBytes: getLocalDisplayName cuts the name to maxDisplayNameLen (= 255) BYTES.
+func floodDisplayNameCutInBytes(f *ast.File) bool {
+	gd := findFunc(f, "Flooder", "getLocalDisplayName")
+	cut := hasNode(gd, func(n ast.Node) bool {
+		is, ok := n.(*ast.IfStmt)
+		return ok && norm(src(is.Cond)) == "len(name) > maxDisplayNameLen" && len(is.Body.List) == 1 &&
+			isStmtText(is.Body.List[0], "name = name[:maxDisplayNameLen]")
+	})
+	v := int64(-1)
+	if e := constExpr(f, "maxDisplayNameLen"); e != nil {
+		if x, ok := intLit(e, nil); ok {
+			v = x
+		}
+	}
+	return cut && v == 255
+}
+
+// floodPathExtensionUnconditional: floodAdvertisementEncrypted extends a plaintext path in a top-level
+// `if encPath != nil && !encPath.Encrypted { ... newPath[0] = f.localID ... }` (no other condition, e.g. on the
+// sealed box, in front of it).
+func floodPathExtensionUnconditional(f *ast.File) bool {
+	fe := findFunc(f, "Flooder", "floodAdvertisementEncrypted")
+	if fe == nil || fe.Body == nil {
+		return false
+	}
+	for _, st := range fe.Body.List {
+		is, ok := st.(*ast.IfStmt)
+		if !ok || norm(src(is.Cond)) != "encPath != nil && !encPath.Encrypted" {
+			continue
+		}
+		pre, cp := false, false
+		for _, b := range is.Body.List {
+			if isStmtText(b, "newPath[0] = f.localID") {
+				pre = true
+			}
+			if isStmtText(b, "copy(newPath[1:], existingPath)") {
+				cp = true
+			}
+		}
+		return pre && cp
+	}
+	return false
 }
